@@ -129,6 +129,22 @@ impl World {
                 }
             }
         }
+        // C12 (cluster side): the tracker holds progress for exactly the members of the node's
+        // active configuration, whichever way that configuration was reached (conf change,
+        // snapshot restore, restart)
+        if let Some(l) = self.live(i) {
+            let prs = l.rn.raft.prs();
+            let conf = RefConf::from_cs(&prs.conf().to_conf_state());
+            let members = conf.members();
+            let tracked: BTreeSet<u64> = prs.iter().map(|(k, _)| *k).collect();
+            if tracked != members {
+                ctx.v(
+                    "C12",
+                    "tracker holds progress for other nodes than the members of its configuration",
+                    format!("node {}: progress for {:?}, configuration members {:?}", id, tracked, members),
+                );
+            }
+        }
         // C09(a) as a state invariant: a leader's log holds at most one membership change of
         // its own term beyond its applied index (the auto-leave entry the library appends by
         // itself included; inherited entries of older terms are the previous leaders' business)
